@@ -4,7 +4,7 @@ P="$1"; ID="$2"; TIER="${3:-quick}"
 cd /repo || exit 9
 if ! git diff --quiet; then echo "repo dirty"; exit 9; fi
 if ! git apply "$P" 2>/dev/null; then
-  if ! git apply --3way "$P" 2>/dev/null; then echo "PATCH-DOES-NOT-APPLY $P"; git checkout -- . ; exit 8; fi
+  if ! git apply --3way "$P" 2>/dev/null; then echo "PATCH-DOES-NOT-APPLY $P"; git reset -q --hard HEAD; exit 8; fi
   git reset -q
 fi
 cd /verif; ./check "$ID" "$TIER" 2>&1 | grep -E "VIOLATION|KNOWN|UNDECIDED|CHECKER|^\[" | cut -c1-300 | head -${LINES_MAX:-12}
